@@ -5,6 +5,7 @@
 -/
 import Aqv.Lemmas.TrieBuild
 import Aqv.Lemmas.TrieProof
+import Aqv.Lemmas.TrieLoad
 namespace Aqv.Props.C10
 open Aqv Aqv.Trie Aqv.Rlp
 
@@ -276,6 +277,116 @@ theorem reopen_get (H : Bytes → Bytes) (hH : ∀ x, (H x).length = 32) (t : No
   rw [reopen_get_core H hH hw hs db hdb hk (verifyFuel k) (by simp [verifyFuel])]
   cases lookup t k <;> rfl
 
+/-! ### partially loaded tries: on-demand resolution, unloading, Commit, missing nodes
+
+  `Repr H db am r x t` (Lemmas.TrieLoad): the partially loaded node `x` (hash nodes = unloaded subtrees) stands for the
+  fully loaded canonical node `t` over the node database `db`; `am = false`: the database holds every referenced node,
+  `am = true`: it may lack some. `xget`/`xinsert`/`xdelete` are the workers of trie.go WITH the `hashNode` cases
+  (`resolveHash` through `db`), `hashRootX` the hasher on such nodes, `Unload` the hasher's unloading step (any clean
+  node, nondeterministically), `commitDb` what `Commit` stores. -/
+
+/-- **unload_denotation (get)**: on any representation of `t`, the on-demand `tryGet` returns the content's answer and a
+    node (with the path now loaded) that still stands for `t`. -/
+theorem unload_get (H : Bytes → Bytes) (hH : ∀ x, (H x).length = 32) (db : Bytes → Option Bytes) (r : Bool) (x : PNode)
+    (t : Node) (hr : Repr H db false r x t) (ht : WFRoot t) (k : List Nib) (hk : Term k) :
+    ∃ x', xget db (xfuel k) x k = .ok (lookup t k, x') ∧ Repr H db false r x' t := by
+  rcases xget_repr H hH db false hr k _ (pos_of_wfroot ht hk) (need_le_xfuel _ _) with h | ⟨ha, _⟩
+  · exact h
+  · cases ha
+
+/-- **unload_denotation (insert)**: same dirty flag as on the fully loaded trie, and the result stands for the updated
+    trie `ins t k v` (= what `insert` returns, `insert_spec`). -/
+theorem unload_insert (H : Bytes → Bytes) (hH : ∀ x, (H x).length = 32) (db : Bytes → Option Bytes) (r : Bool) (x : PNode)
+    (t : Node) (hr : Repr H db false r x t) (ht : WFRoot t) (k : List Nib) (hk : Term k) (v : Bytes) :
+    ∃ d x' t', insert t k v = some (d, t') ∧ xinsert db (xfuel k) x k v = .ok (d, x') ∧ Repr H db false false x' t' := by
+  rcases xinsert_repr H hH db false hr k _ v (pos_of_wfroot ht hk) (need_le_xfuel _ _) with ⟨d, x', h1, h2, h3⟩ | ⟨ha, _⟩
+  · exact ⟨d, x', _, h1, h2, h3⟩
+  · cases ha
+
+/-- **unload_denotation (delete)**, including the collapse step that resolves the single remaining child. -/
+theorem unload_delete (H : Bytes → Bytes) (hH : ∀ x, (H x).length = 32) (db : Bytes → Option Bytes) (r : Bool) (x : PNode)
+    (t : Node) (hr : Repr H db false r x t) (ht : WFRoot t) (k : List Nib) (hk : Term k) :
+    ∃ d x' t', delete t k = some (d, t') ∧ xdelete db (xfuel k) x k = .ok (d, x') ∧ Repr H db false false x' t' := by
+  rcases xdelete_repr H hH db false hr k _ (pos_of_wfroot ht hk) (need_le_xfuel _ _) with ⟨d, x', h1, h2, h3, _⟩ | ⟨ha, _⟩
+  · exact ⟨d, x', _, h1, h2, h3⟩
+  · cases ha
+
+/-- **unload_denotation (Hash)**: hashing any representation gives the root of the trie it stands for (a hash node is
+    its own reference; no database access, no collision-freedom needed). -/
+theorem unload_hashRoot (H : Bytes → Bytes) (db : Bytes → Option Bytes) (am r : Bool) (x : PNode) (t : Node)
+    (hr : Repr H db am r x t) : hashRootX H x = hashRoot H t := hashRootX_repr H db am hr
+
+/-- **Unloading is invisible**: replacing ANY clean loaded subtree (stored in `db` with everything loaded below it) by
+    its hash node — whatever the cache generation / `SetCacheLimit` made the hasher pick — still stands for `t`. -/
+theorem unload_denotation (H : Bytes → Bytes) (db : Bytes → Option Bytes) (r : Bool) (x x' : PNode) (t : Node)
+    (hu : Unload H db r x x') (hr : Repr H db false r x t) (ht : WFRoot t) (hs : SizeOk H t) :
+    Repr H db false r x' t := unload_repr H db hu hr (slot_of_wfroot ht) hs
+
+/-- **Commit, then reopen from the root hash**: after `Commit` the database extends the old one, the loaded trie still
+    stands for `t`, and so does the bare root hash node (what `New(root, db)` starts from). Collision-freedom of `H`
+    is needed exactly here: between the nodes of `t` (`hcf`) and against blobs already stored under their hashes
+    (`hold`) — `db.insert` keeps the first blob stored under a hash. -/
+theorem commit_reopen_partial (H : Bytes → Bytes) (db : Bytes → Option Bytes) (r : Bool) (x : PNode) (t : Node)
+    (hr : Repr H db false r x t) (ht : WF t) (hs : SizeOk H t) (hx : isSFX x = true)
+    (hold : ∀ m, Sub m t → WF m → ∀ b, db (hashOf H m) = some b → b = enc (body H m)) (hcf : CFp H t t) :
+    Repr H (commitDb H db x) false true x t ∧ Repr H (commitDb H db x) false true (.hash (hashRootX H x)) t :=
+  commit_reopen_repr H db hr (Or.inr (Or.inr ht)) hs hx hold hcf
+
+/-- **missing_node_is_reported**: over a database that may LACK nodes (never holds wrong ones), the on-demand workers
+    either behave exactly as on the full trie or return the MissingNodeError — never a wrong value, a panic, or a node
+    standing for a different trie. -/
+theorem missing_node_is_reported (H : Bytes → Bytes) (hH : ∀ x, (H x).length = 32) (db : Bytes → Option Bytes) (r : Bool)
+    (x : PNode) (t : Node) (hr : Repr H db true r x t) (ht : WFRoot t) (k : List Nib) (hk : Term k) (v : Bytes) :
+    ((∃ x', xget db (xfuel k) x k = .ok (lookup t k, x') ∧ Repr H db true r x' t) ∨ ∃ h, xget db (xfuel k) x k = .missing h) ∧
+    ((∃ d x', xinsert db (xfuel k) x k v = .ok (d, x') ∧ Repr H db true false x' (ins t k v)) ∨
+      ∃ h, xinsert db (xfuel k) x k v = .missing h) ∧
+    ((∃ d x', xdelete db (xfuel k) x k = .ok (d, x') ∧ Repr H db true false x' (del t k)) ∨
+      ∃ h, xdelete db (xfuel k) x k = .missing h) := by
+  have hp := pos_of_wfroot ht hk
+  refine ⟨?_, ?_, ?_⟩
+  · rcases xget_repr H hH db true hr k _ hp (need_le_xfuel _ _) with h | ⟨_, h⟩
+    · exact Or.inl h
+    · exact Or.inr h
+  · rcases xinsert_repr H hH db true hr k _ v hp (need_le_xfuel _ _) with ⟨d, x', _, h2, h3⟩ | ⟨_, h⟩
+    · exact Or.inl ⟨d, x', h2, h3⟩
+    · exact Or.inr h
+  · rcases xdelete_repr H hH db true hr k _ hp (need_le_xfuel _ _) with ⟨d, x', _, h2, h3, _⟩ | ⟨_, h⟩
+    · exact Or.inl ⟨d, x', h2, h3⟩
+    · exact Or.inr h
+
+/-- **Histories over partially loaded states.** Any state reachable by update / delete / get / Commit / unloading steps
+    in any interleaving (`Reach`; reopen = Commit followed by unloading the root) stands for the canonical trie of the
+    history: its `Hash` is that trie's root, every `TryGet` succeeds with the reference map's answer, every further
+    update / delete succeeds (no MissingNodeError, no panic). Hypotheses: `H` collision-free on the finitely many nodes
+    of the tries the history passes through (`CFHist`, used at Commit only), sizes below 2^64 (`SzHist`). -/
+theorem partial_history_refines (H : Bytes → Bytes) (hH : ∀ x, (H x).length = 32) (ops : List Op) (s : XState)
+    (hr : Reach H ops s) (hcf : CFHist H ops) (hsz : SzHist H ops) :
+    ∃ t, run ops = some t ∧ WFRoot t ∧ hashRootX H s.root = hashRoot H t ∧
+      (∀ kb, ∃ n, xget s.db (xfuel (keybytesToHex kb)) s.root (keybytesToHex kb) = .ok (absOf ops kb, n)) ∧
+      (∀ kb v, ∃ d n, xinsert s.db (xfuel (keybytesToHex kb)) s.root (keybytesToHex kb) v = .ok (d, n)) ∧
+      (∀ kb, ∃ d n, xdelete s.db (xfuel (keybytesToHex kb)) s.root (keybytesToHex kb) = .ok (d, n)) := by
+  obtain ⟨t, hi⟩ := reach_xinv H hH hr hcf hsz
+  refine ⟨t, hi.run, hi.inv.wf, hashRootX_repr H _ _ hi.repr, ?_, ?_, ?_⟩
+  · intro kb
+    obtain ⟨x', hx, _⟩ := unload_get H hH s.db true s.root t hi.repr hi.inv.wf _ (term_keybytesToHex kb)
+    rw [hi.inv.content] at hx
+    exact ⟨x', hx⟩
+  · intro kb v
+    obtain ⟨d, x', _, _, hx, _⟩ := unload_insert H hH s.db true s.root t hi.repr hi.inv.wf _ (term_keybytesToHex kb) v
+    exact ⟨d, x', hx⟩
+  · intro kb
+    obtain ⟨d, x', _, _, hx, _⟩ := unload_delete H hH s.db true s.root t hi.repr hi.inv.wf _ (term_keybytesToHex kb)
+    exact ⟨d, x', hx⟩
+
+/-- `root_content_only` for partially loaded states: two reachable states (different histories, different interleavings
+    of Hash / Commit / unload / reopen, different load states) with the same content have the same root hash. -/
+theorem root_content_only_partial (H : Bytes → Bytes) (hH : ∀ x, (H x).length = 32) (ops₁ ops₂ : List Op) (s₁ s₂ : XState)
+    (h₁ : Reach H ops₁ s₁) (h₂ : Reach H ops₂ s₂) (c₁ : CFHist H ops₁) (c₂ : CFHist H ops₂) (z₁ : SzHist H ops₁)
+    (z₂ : SzHist H ops₂) (h : ∀ kb, absOf ops₁ kb = absOf ops₂ kb) : hashRootX H s₁.root = hashRootX H s₂.root := by
+  obtain ⟨t₁, r₁, _, e₁, _⟩ := partial_history_refines H hH ops₁ s₁ h₁ c₁ z₁
+  obtain ⟨t₂, r₂, _, e₂, _⟩ := partial_history_refines H hH ops₂ s₂ h₂ c₂ z₂
+  rw [e₁, e₂, (root_content_only H ops₁ ops₂ t₁ t₂ r₁ r₂ h).2]
+
 /-! ### key encodings -/
 
 theorem keybytes_hex_roundtrip (s : Bytes) : hexToKeybytes (keybytesToHex s) = some s := keybytes_hex_roundtrip' s
@@ -352,6 +463,62 @@ example : CFp toyH leafT leafT := by
 -- reopening: the node database of the one-leaf trie
 example : loadP (fun h => if h = hashRoot toyH leafT then some (enc (body toyH leafT)) else none) 3
     (.hash (hashRoot toyH leafT)) = some leafT := by rfl
+-- partially loaded tries: a reachable committed + fully unloaded state, its hypotheses, and a lacking database
+private def xleaf : PNode := .short (keybytesToHex [0x61]) (.value [7, 7])
+private def exOps : List Op := [.update [0x61] [7, 7], .other, .other]
+
+example : Repr toyH (fun _ => none) false true xleaf leafT := .short _ _ (.value _ _)
+
+private theorem exReach : Reach toyH exOps ⟨commitDb toyH (fun _ => none) xleaf, .hash (hashRootX toyH xleaf)⟩ :=
+  Reach.unload _ (Reach.commit (Reach.insert [0x61] [7, 7] true xleaf Reach.init (by decide) rfl))
+    (Unload.here true xleaf rfl (Or.inl rfl) (by decide) (by intro kv h; revert kv; decide))
+
+private theorem exHist : ∀ pre t, pre <+: exOps → run pre = some t → t = .nil ∨ t = leafT := by
+  intro pre t hp hr
+  obtain ⟨s, hs⟩ := hp
+  match pre, hs, hr with
+  | [], _, hr => left; exact (Option.some.inj hr).symm
+  | [a], hs, hr =>
+    simp only [exOps, List.cons_append, List.nil_append, List.cons.injEq] at hs
+    obtain ⟨rfl, _⟩ := hs
+    right; exact (Option.some.inj hr).symm
+  | [a, b], hs, hr =>
+    simp only [exOps, List.cons_append, List.nil_append, List.cons.injEq] at hs
+    obtain ⟨rfl, rfl, _⟩ := hs
+    right; exact (Option.some.inj hr).symm
+  | [a, b, c], hs, hr =>
+    simp only [exOps, List.cons_append, List.nil_append, List.cons.injEq] at hs
+    obtain ⟨rfl, rfl, rfl, _⟩ := hs
+    right; exact (Option.some.inj hr).symm
+  | a :: b :: c :: d :: r, hs, _ =>
+    simp [exOps] at hs
+
+private theorem exNode : ∀ m, HistNode exOps m → m = leafT := by
+  intro m ⟨pre, t, hp, hr, hs, hw⟩
+  rcases exHist pre t hp hr with rfl | rfl
+  · cases hs; exact absurd hw not_wf_nil
+  · cases hs with
+    | refl => rfl
+    | short _ h => cases h; exact absurd hw (not_wf_value _)
+
+example : CFHist toyH exOps := by
+  intro m₁ m₂ h₁ h₂ _
+  rw [exNode m₁ h₁, exNode m₂ h₂]
+
+example : SzHist toyH exOps := by
+  intro pre t hp hr
+  rcases exHist pre t hp hr with rfl | rfl
+  · trivial
+  · exact ⟨by decide, trivial⟩
+
+-- the unloaded, reopened state answers from the database, and a database lacking the node reports it
+example : ∃ n, xget (commitDb toyH (fun _ => none) xleaf) 6 (.hash (hashRootX toyH xleaf)) (keybytesToHex [0x61]) =
+    .ok (some [7, 7], n) := ⟨_, rfl⟩
+example : xget (fun _ => none) 6 (.hash (hashRootX toyH xleaf)) (keybytesToHex [0x61]) =
+    .missing (hashRootX toyH xleaf) := rfl
+example : Repr toyH (fun _ => none) true true (.hash (hashOf toyH leafT)) leafT :=
+  .gone _ rfl (WF.leaf _ _ (term_keybytesToHex _) (by decide)) (Or.inl rfl) rfl
+
 -- hostile node blobs: decode error, and the modelled Go panic (empty compact key)
 private def outcome : Except DErr PNode → Nat
   | .ok _ => 0
